@@ -565,6 +565,7 @@ theorem step_cases (st : State) (op : Op) :
       · exact Frame.refl _
       · exact frame_setTok _ _ _
     · exact Frame.refl _
+  | upgradeMigrate au => left; rw [step_upgradeMigrate_fst]; exact Frame.refl _
 
 theorem step_chainName (st : State) (op : Op) : (step H S k st op).1.chainName = st.chainName := by
   rcases step_cases H S k st op with hf | ⟨st3, tid, hf, _, _, heq, _⟩ | ⟨token, tid, _, heq⟩
@@ -908,6 +909,7 @@ theorem step_frame_of_not_writer (st : State) (op : Op) (hw : ¬ IsWriter op) : 
       · exact Frame.refl _
       · exact frame_setTok _ _ _
     · exact Frame.refl _
+  | upgradeMigrate au => rw [step_upgradeMigrate_fst]; exact Frame.refl _
 
 /-- one step: an entry that appears in this step was written by one of the three writers, with the stated facts -/
 theorem provenance_step (st : State) (op : Op) (tid : Bytes) (addr : Addr) (mgr : Manager)
